@@ -58,3 +58,28 @@ def run(run):
 def replay(spec):
     from ..filtercheck import replay_schedule
     return replay_schedule(spec)
+
+
+def FALLBACK(tier):
+    """canned schedules put to the compiled filter when the symbolic exploration is inconclusive
+    (main.py): epochs on stamps, between them, clustered in one interval, shared between sensors,
+    at the start, in the last interval, outside the span, gaps, steps below / above everything"""
+    from ..filtercheck import witness_to_spec
+    Fr = lambda a, b=1: (a, b)      # witnesses carry rationals as (numerator, denominator)
+    stamps = [Fr(0), Fr(1, 8), Fr(1, 4), Fr(3, 4), Fr(7, 8), Fr(1)]
+    scheds = [
+        {'Position': [Fr(0), Fr(3, 16), Fr(7, 32)], 'NedVelocity': [Fr(3, 16), Fr(1, 2)], 'BodyVelocity': [Fr(15, 16)]},
+        {'Position': [Fr(-1), Fr(1, 8), Fr(1)], 'NedVelocity': [Fr(1, 8), Fr(5, 16), Fr(3, 8), Fr(7, 16)]},
+        {'Position': [Fr(29, 32), Fr(15, 16), Fr(31, 32)], 'BodyVelocity': [Fr(2)]},
+    ]
+    out = []
+    for sens in scheds:
+        for step in (Fr(1, 32), Fr(3, 10), Fr(5)):
+            for wa in (True, False):
+                for ms in ((0, 0), (3, 3)):
+                    cfg = dict(with_altitude=wa, model_states=ms, with_increments=(ms != (0, 0)))
+                    w = {'stamps': stamps, 'step': step, 'sensors': sens, 'exact': True}
+                    out.append(witness_to_spec('feedforward', cfg, w, config='canned', property=PROP))
+    for mm in ('none', 'empty'):
+        out.append(witness_to_spec('feedforward', dict(meas_mode=mm, default_models=True, default_step=True), {'stamps': stamps, 'step': Fr(1, 10), 'sensors': {}, 'exact': True}, config='canned', property=PROP))
+    return out
